@@ -24,6 +24,9 @@ TITLE_SETS = {
     # apostrophes at the edges of a title (spelled doubled inside the quotes) next to the sheets they would collapse to
     'edge-apostrophe': ["Plan'", 'Plan', "'Plan"],
     'look-alikes': ['S 1', 'S1', 'S  1'],
+    # a title that holds the absolute-reference marker next to the same title without it; a title of digits
+    'dollar': ['US$', 'US', '$'],
+    'digits': ['7', '0', '2'],
 }
 UNQUOTED_OK = {'S', 'Sheet2', 'Лист1'}
 N = 8  # planted block
@@ -119,9 +122,11 @@ def gen_wholecol_cases(tier):
 
 def gen_missing():
     for tset in ('plain', 'odd'):
-        for t in ('Nope', 'S2', 'My Sheet2', 's', 'Sheet'):
+        # digits that name no sheet but would be valid positions of one (0, 1, 2); titles that differ from an existing one
+        # in letter case only are left out (Excel takes them for the same sheet: resolving them to it would be no error)
+        for t in ('Nope', 'S2', 'My Sheet2', 'Sheet', '0', '1', '2', '01'):
             for how in ('unq', 'q'):
-                if how == 'unq' and ' ' in t:
+                if how == 'unq' and (' ' in t or t.isdigit()):
                     continue
                 for ref in ('B2', 'A1:B2', 'A:A'):
                     yield {'kind': 'missing', 'tset': tset, 'title': t, 'how': how, 'ref': ref}
